@@ -3,6 +3,7 @@ package checks
 import (
 	"fmt"
 	"os"
+	"strings"
 
 	"github.com/quickfixgo/quickfix"
 
@@ -18,6 +19,7 @@ type c01Mon struct {
 	pending bool // a FromApp happened and T has not advanced yet
 	q       int
 	rel     int // last - T at the end of the previous step (state key, valid for absolute and relative keys)
+	kept    []int // numbers of the messages held by the session at the end of the previous step
 }
 
 func (m *c01Mon) Key() string {
@@ -40,6 +42,26 @@ func (m *c01Mon) Step(w *sessmc.World, e *sessmc.Event, obs []sessmc.Obs) (strin
 			}
 			if o.T1 < o.T0 {
 				return "C01/R4-target-moved-back op=" + o.Op, fmt.Sprintf("expected inbound number moved back %d→%d by %s(%d) without reset", o.T0, o.T1, o.Op, o.Arg)
+			}
+			if o.Op == "IncrT" && o.T1 == o.T0+1 {
+				// R5: the expected number is stepped only past a message that carries it: the message being processed,
+				// or one kept earlier and processed now
+				have := w.LastIn != nil && e.K == "in" && w.LastIn.Seq() == o.T0
+				if e.K == "in" && e.Behind != nil {
+					have = true // (a second message is buffered behind the first: its number is not visible here)
+				}
+				for _, k := range m.kept {
+					if k == o.T0 {
+						have = true
+					}
+				}
+				if !have {
+					q := -1
+					if w.LastIn != nil {
+						q = w.LastIn.Seq()
+					}
+					return "C01/R5-stepped-past-a-number-not-received state=" + st, fmt.Sprintf("the expected number was stepped %d→%d while processing %s (MsgSeqNum %d); no message numbered %d is at hand (kept: %v): that message can no longer be delivered", o.T0, o.T1, e.Name, q, o.T0, m.kept)
+				}
 			}
 			if m.pending && o.T1 != o.T0 {
 				if o.T1 != m.q+1 {
@@ -65,6 +87,7 @@ func (m *c01Mon) Step(w *sessmc.World, e *sessmc.Event, obs []sessmc.Obs) (strin
 		}
 	}
 	m.rel = m.last - w.T()
+	m.kept = append(m.kept[:0], w.VS.Snapshot().Stash...)
 	if m.pending {
 		return "C01/R2-no-advance-in-transition", fmt.Sprintf("transition ended with %d delivered but expected number still %d", m.q, w.T())
 	}
@@ -91,6 +114,8 @@ func c01Alphabet() []*sessmc.Event {
 	a = append(a, sessmc.EvSeqReset(1, 0, "Y", false)) // early gap fill that fills nothing
 	a = append(a, sessmc.EvIn("2", 0, false, fixscan.Field{7, "1"}, fixscan.Field{16, "0"}))
 	a = append(a, sessmc.EvIn("5", 0, false), sessmc.EvIn("3", 0, false, fixscan.Field{45, "1"}))
+	// administrative messages numbered above the expected one (they open a recovery like any other message)
+	a = append(a, sessmc.EvIn("3", 1, false, fixscan.Field{45, "1"}), sessmc.EvIn("1", 1, false, fixscan.Field{112, "X"}), sessmc.EvIn("j", 1, false, fixscan.Field{45, "1"}, fixscan.Field{372, "D"}, fixscan.Field{380, "3"}))
 	a = append(a, sessmc.EvLogon(0, 0, ""), sessmc.EvLogon(1, 0, ""), sessmc.EvLogon(0, 1, "Y"))
 	a = append(a, sessmc.EvTimeout(quickfix.VerifPeerTimeout), sessmc.EvTimeout(quickfix.VerifNeedHeartbeat))
 	a = append(a, sessmc.EvDisconnect(), sessmc.EvConnect(), sessmc.EvFlush())
@@ -187,6 +212,51 @@ func runC01(c *core.Ctx) {
 		}
 	}
 	runConformance(c)
+	runC01Sched(c)
 	c.Set("depth_completed_absolute_keys", minDepth)
 	c.Set("depth_target_relative_keys", relDepth)
+}
+
+
+// runC01Sched: the expected inbound number as the counter file holds it, under every interleaving (preemption bound 2,
+// thorough 3) of the session thread consuming inbound messages with an application thread sending, with the file
+// store's own lock as a scheduling point (Engine B, scenario S11): a fresh store opened on the files must say what the
+// running store says.
+func runC01Sched(c *core.Ctx) {
+	note, err := c02Build(false)
+	c02BuildOnce.Do(func() { c02BuildErr = err })
+	if err != nil {
+		c.EngineError(err.Error())
+		return
+	}
+	_ = note
+	bound := 2
+	if !c.Quick() {
+		bound = 3
+	}
+	dir, cleanup := core.Scratch("c01s")
+	defer cleanup()
+	const scn = "S11-inbound-traffic-during-sends"
+	rep, stderr, err := c02Run("-scenario", scn, "-bound", fmt.Sprint(bound), "-filestore", dir, "-budget", "3m")
+	if err != nil {
+		c.EngineError(fmt.Sprintf("%s: %v %s", scn, err, stderr))
+		return
+	}
+	c.AddEval(rep.Executions)
+	c.DistinctN(rep.Executions)
+	c.Set("schedules_inbound_counter_file_store", rep.Executions)
+	c.Set("schedules_preemption_bound", bound)
+	if !rep.Completed {
+		c.Cap("schedule exploration of the file store's counter files not completed within its budget")
+	}
+	if rep.Engine != "" {
+		c.EngineError(fmt.Sprintf("%s: %s", scn, rep.Engine))
+	}
+	if rep.Rule != "" {
+		rule := rep.Rule
+		if strings.HasPrefix(rule, "C02/R9") {
+			rule = "C01/R6-counter-files-differ-from-running-store"
+		}
+		c.Violation(rule+" scenario="+scn+" store=file", fmt.Sprintf("%s | schedule (thread chosen at each point): %v", rep.What, rep.Schedule), "C02/sched", c02Case{Scenario: scn, Choices: rep.Choices, FileStore: true})
+	}
 }
